@@ -614,7 +614,15 @@ func ruleS11(p *Prog, r *Report) {
 		}
 		good := false
 		if tempBlock != nil && len(tempBlock.Instrs) > 0 {
-			isAdvance := func(z ssa.Instruction) bool {
+			var isAdvance func(z ssa.Instruction) bool
+			isAdvance = func(z ssa.Instruction) bool {
+				// a private helper of the storage that advances the counter on every path
+				if c, ok := z.(*ssa.Call); ok {
+					if g := c.Call.StaticCallee(); g != nil && g.Pkg == p.RootSSA && recvName(g) == storageT && g != f && len(g.Blocks) > 0 && g.Object() != nil && !g.Object().Exported() {
+						return successReturnAvoiding(g, nil, isAdvance) == nil
+					}
+					return false
+				}
 				st, ok := z.(*ssa.Store)
 				if !ok {
 					return false
